@@ -30,12 +30,12 @@ Theorem C02_gem_refuted_witnesses :
   (* F-C02-13: 1-a.-b yields an extra element 0 *)
   (cmp_strings true s_1a0a s_1a_b = Some (-1) /\ cmp_strings false s_1a0a s_1a_b = Some 0 /\
    gspec_compare s_1a0a s_1a_b = Some 1) /\
-  (* F-C02-14 (= F-C01-3): the final length test *)
-  (cmp_strings true s_1a s_1a00 = Some (-1) /\ gspec_compare s_1a s_1a00 = Some 0).
+  (* the pair of F-C01-3 (final length test, repaired by c398aba) now agrees *)
+  (cmp_strings true s_1a s_1a00 = Some 0 /\ gspec_compare s_1a s_1a00 = Some 0).
 Proof. exact (conj gem_trim_witness (conj gem_case_witness (conj gem_dotdash_witness gem_tail_witness))). Qed.
 
 (* What holds, for ALL version structures of the shape the parser builds (numbers not
-   negative; elements numerals or words, the first a word, the last not a numeral of value 0;
+   negative; elements numerals or words, the first a word;
    boolean c02_wf_b, shared with the harness): compare is Gem::Version's comparison of the
    canonical segments of the version's numbers followed by its prerelease elements.
    Missing for the full statement: that the repaired parser maps a lower-case string without
